@@ -12,15 +12,15 @@ Proof. vm_compute. reflexivity. Qed.
 
 Lemma interval_bounds : ∀ T, client_MinRenewSeconds < T → 0 < interval T < T.
 Proof.
-  intros T. unfold interval, client_MinRenewSeconds, renew_threshold, renew_subtract.
-  intros H. destruct (Z.leb_spec T 30); lia.
+  intros T H. unfold interval. destruct (Z.leb_spec T renew_threshold) as [L|L];
+    unfold client_MinRenewSeconds, renew_threshold, renew_subtract in *; lia.
 Qed.
 
 (** what the property excludes: a lock timeout of at most MinRenewSeconds is never renewed in time *)
 Lemma interval_small : ∀ T, T ≤ client_MinRenewSeconds → T ≤ interval T.
 Proof.
-  intros T. unfold interval, client_MinRenewSeconds, renew_threshold, renew_subtract.
-  intros H. destruct (Z.leb_spec T 30); lia.
+  intros T H. unfold interval. destruct (Z.leb_spec T renew_threshold) as [L|L];
+    unfold client_MinRenewSeconds, renew_threshold, renew_subtract in *; lia.
 Qed.
 
 Lemma slack_pos : ∀ T, client_MinRenewSeconds < T → 0 < slack T.
